@@ -21,6 +21,13 @@ type VerifC03State struct {
 	Interrupted  bool
 	MaxCallStack int
 	StackNil     bool // vm.stack == nil (leave() drops the operand stack)
+	// every other field of vm that outlives a call (audit of the vm struct: r, maxCallStackSize, stashAllocs,
+	// interruptVal/Lock and profTracker are configuration / bookkeeping that no script can observe)
+	PrivEnvDepth      int  // length of the vm.privEnv chain (0 = nil)
+	CurAsyncRunnerNil bool // vm.curAsyncRunner == nil
+	NewTargetNil      bool // vm.newTarget == nil
+	Args              int  // vm.args
+	ResultNil         bool // vm.result == nil (informational: RunProgram sets it on entry)
 }
 
 // VerifC03VMState returns the current control state of r's VM.
@@ -41,5 +48,19 @@ func VerifC03VMState(r *Runtime) VerifC03State {
 		Interrupted:  atomic.LoadUint32(&vm.interrupted) != 0,
 		MaxCallStack: vm.maxCallStackSize,
 		StackNil:     vm.stack == nil,
+
+		PrivEnvDepth:      verifC03PrivDepth(vm.privEnv),
+		CurAsyncRunnerNil: vm.curAsyncRunner == nil,
+		NewTargetNil:      vm.newTarget == nil,
+		Args:              vm.args,
+		ResultNil:         vm.result == nil,
 	}
+}
+
+func verifC03PrivDepth(e *privateEnv) int {
+	n := 0
+	for ; e != nil; e = e.outer {
+		n++
+	}
+	return n
 }
